@@ -18,6 +18,15 @@ static void densityCase(Rng &rng, CaseResult &r) {
   if (rng.chance(0.15)) o.scale = (int)rng.pick(std::vector<int>{10, 100});
   else if (rng.chance(0.1)) { o.scale = (int)rng.pick(std::vector<int>{1000, 5000, 13000}); o.maxCells = std::min(o.maxCells, 30); }  // bin demands beyond 2^31
   Circuit c = genCircuit(rng, o);
+  if (rng.chance(0.3)) {
+    // some movable cells without area: they have no demand and must be in no bin
+    int kept = 0;
+    for (int i = 0; i < c.nbCells(); ++i) {
+      if (c.cellIsFixed_[i]) continue;
+      if (kept++ == 0) continue;  // at least one movable cell keeps its area
+      if (rng.chance(0.2)) { if (rng.chance(0.5)) c.cellWidth_[i] = 0; else c.cellHeight_[i] = 0; }
+    }
+  }
   float sizeFactor = 1.0f + (float)rng.unif() * 6;
   float margin = rng.chance(0.4) ? 0.0f : (float)rng.unif() * 1.5f;
   DensityLegalizer::Parameters p;
@@ -168,10 +177,21 @@ static void densityCase(Rng &rng, CaseResult &r) {
       // the stage the global placer runs when a callback resized cells: new sizes for cells of non-zero area are taken over;
       // a change that would give a placed cell no demand (made fixed, or a side of zero) is refused and changes nothing
       Circuit c2 = c;
-      int kind = (int)trng.range(0, 2);
-      std::vector<int> cand;
-      for (int cc = 0; cc < n; ++cc) if (leg.cellDemand(cc) > 0) cand.push_back(cc);
-      if (cand.empty()) kind = 0;
+      int kind = (int)trng.range(0, 3);
+      std::vector<int> cand, zeroCand;
+      for (int cc = 0; cc < n; ++cc) { if (leg.cellDemand(cc) > 0) cand.push_back(cc); else if (!c.cellIsFixed_[cc]) zeroCand.push_back(cc); }
+      if (kind == 3 && zeroCand.empty()) kind = (int)trng.range(0, 2);
+      if (cand.empty() && kind != 3) kind = 0;
+      if (kind == 3) {
+        // a movable cell without area gets one: it is in no bin and none of the passes would ever put it into one, so the update
+        // must be refused like the opposite change
+        int cc = zeroCand[trng.range(0, (long long)zeroCand.size() - 1)];
+        c2.cellWidth_[cc] = std::max(1, c2.cellWidth_[cc]) * (int)trng.range(1, 3);
+        c2.cellHeight_[cc] = std::max(1, c2.cellHeight_[cc]);
+        bool threw = false;
+        try { leg.updateCellDemand(c2); } catch (const std::exception &) { threw = true; }
+        r.count(threw ? "demand_updates_from_zero_refused" : "demand_updates_from_zero_accepted");
+      } else
       if (kind == 0) {
         for (int cc : cand) if (trng.chance(0.4)) {
           // cell demands are 32-bit in the density legalizer: stay below 2^30 per cell (documented assumption of this check)
